@@ -2,6 +2,7 @@
 
 pub mod dump;
 pub mod evalop;
+pub mod frontop;
 pub mod misc;
 pub mod oracles;
 
@@ -39,6 +40,7 @@ fn dispatch(req: &J) -> J {
         "evalmany" => evalop::op_evalmany(req),
         "value" => evalop::op_value(req),
         "session" => evalop::op_session(req),
+        "fsession" => frontop::op_fsession(req),
         "spans" => misc::op_spans(req),
         "gcscript" => misc::op_gcscript(req),
         "gcenum" => misc::op_gcenum(req),
